@@ -560,6 +560,24 @@ pub fn corpus() -> Vec<Item> {
         spec.tree = Node::leaf(5);
         spec.lf_global_prefix = Some(write_patches(&refs, 1, &CodeOpts { use_prefix: true, ..Default::default() }));
         out.push(item("rgba-24x20-patches", &img, vec![encode_frame(&img, &d0), write_modular_frame(&img, &spec).bytes], 1));
+        // a zero-duration layer with patches kept in slot 0, and a keyframe with patches blended over it: the layer is a
+        // dependency of the keyframe and has a dependency (the patch source) of its own
+        {
+            let mut fx = FrameHeader::modular_lossless(&img);
+            fx.flags |= FLAG_PATCHES;
+            fx.is_last = false;
+            let mut sx = ModularFrameSpec::new(fx, planes(24, 20, 4, 255, 6));
+            sx.tree = Node::leaf(5);
+            sx.lf_global_prefix = Some(write_patches(&refs, 1, &CodeOpts { use_prefix: true, ..Default::default() }));
+            let mut fk = FrameHeader::modular_lossless(&img);
+            fk.flags |= FLAG_PATCHES;
+            fk.blending_info = BlendingInfo { mode: BLEND_BLEND, alpha_channel: 0, clamp: false, source: 0 };
+            fk.ec_blending_info = vec![fk.blending_info.clone()];
+            let mut sk = ModularFrameSpec::new(fk, planes(24, 20, 4, 255, 7));
+            sk.tree = Node::leaf(5);
+            sk.lf_global_prefix = Some(write_patches(&refs[..1], 1, &CodeOpts { use_prefix: true, ..Default::default() }));
+            out.push(item("rgba-24x20-patches-layer-under-patched-keyframe", &img, vec![encode_frame(&img, &d0), write_modular_frame(&img, &sx).bytes, write_modular_frame(&img, &sk).bytes], 1));
+        }
         // the same with the alpha channel of the patched frame coded at half resolution (ec_upsampling 2)
         let mut f2 = FrameHeader::modular_lossless(&img);
         f2.flags |= FLAG_PATCHES;
